@@ -50,7 +50,8 @@ def sh(cmd, cwd=None, env=None, timeout=None, memcap=True, logfile=None):
 
     def pre():
         if memcap:
-            resource.setrlimit(resource.RLIMIT_AS, (MEM_CAP_KB * 1024, MEM_CAP_KB * 1024))
+            cap = MEM_CAP_KB * 1024 if memcap is True else int(memcap) * (1 << 30)
+            resource.setrlimit(resource.RLIMIT_AS, (cap, cap))
         os.setsid()
 
     p = subprocess.Popen(cmd, cwd=cwd, env=e, stdout=subprocess.PIPE, stderr=subprocess.STDOUT,
@@ -133,7 +134,7 @@ def run_kani_batch(scr, batch, tier, idx, only=None):
     filt = batch["filter_q"] if tier == "quick" else batch["filter_t"]
     filters = filt if isinstance(filt, list) else [filt]
     if only:
-        filters = [only]
+        filters = only.split(",")
     timeout = batch.get("timeout_q", 120) if tier == "quick" else batch.get("timeout_t", 900)
     jobs = batch.get("jobs", 14)
     out_json = scr.dir / ("kani-%d.json" % idx)
@@ -245,7 +246,8 @@ def replay_candidate(scr, q, batch, idx):
         cmd += ["--no-default-features"]
     cmd += ["--harness", q["full"], "--exact", "--harness-timeout", "1200s", "--output-format", "terse",
             "--target-dir", str(scr.dir / ("tgt-%s" % batch.get("tgt", "a")))]
-    rc, out = sh(cmd, cwd=scr.repo, logfile=scr.dir / ("playback-gen-%d.log" % idx))
+    # one process at a time here; the driver's trace parser needs far more memory than a verification run on long traces
+    rc, out = sh(cmd, cwd=scr.repo, logfile=scr.dir / ("playback-gen-%d.log" % idx), memcap=40)
     # the printed unit tests are appended to the END of the harness file of the scratch copy (module level);
     # `inplace` would put them inside the macro_rules body that generated the harness
     blocks = re.findall(r"```\n(.*?)```", out, re.S)
@@ -491,6 +493,23 @@ def run(pid, cfg, tier, seed, scr, only, a, t0):
     for q in unreproduced:
         log("UNREPRODUCED-CANDIDATE (model/stub/oracle of the check is suspect, NOT reported as violation): %s %s %s"
             % (q["name"], q.get("detail", ""), json.dumps(q.get("replay", {}).get("profiles", {}))[:300]))
+    # ---- baseline of decided queries (committed, written only on request): a change to /repo can make a harness too expensive or
+    # stop it from reaching its assertion; such a harness cannot alarm, so at least say which verdicts of the pinned tree are missing
+    full_run = not only and not a.replay
+    bfile = VERIF / "baseline" / ("%s.%s.txt" % (pid, tier))
+    if full_run and bfile.exists():
+        base = [l.strip() for l in bfile.read_text().splitlines() if l.strip() and not l.startswith("#")]
+        now = {q["name"]: q["status"] for q in queries}
+        lost = [n for n in base if now.get(n) in (None, "UNDECIDED")]
+        if lost:
+            msg = ("%d of %d queries that hold on the pinned tree reached no verdict on this tree (NOT a violation; the claim of this run "
+                   "is narrower by these): %s" % (len(lost), len(base), ", ".join(lost[:12]) + (" ..." if len(lost) > 12 else "")))
+            log("  NOTE  baseline: " + msg)
+            notes.append("baseline: " + msg)
+    if full_run and os.environ.get("VERIF_WRITE_BASELINE") and not violations and not unreproduced and not build_failed:
+        bfile.parent.mkdir(exist_ok=True)
+        bfile.write_text("# queries that HOLD for %s (%s tier) on the pinned tree; regenerate with VERIF_WRITE_BASELINE=1 bin/check %s --tier %s\n"
+                         % (pid, tier, pid, tier) + "\n".join(sorted(q["name"] for q in holds)) + "\n")
     log("%s tier=%s: %d queries, %d hold, %d undecided, %d violated, %d known, %d unreproduced, %.0fs"
         % (pid, tier, len(queries), len(holds), len(undec), len(violations), len(known_hits), len(unreproduced), wall))
 
